@@ -348,6 +348,7 @@ func (r *Record) dst() *SimConn {
 // Deliver hands the record's bytes to the reading end and waits for quiescence.
 func (n *ConnNet) Deliver(r *Record) {
 	n.Remove(r)
+	n.E.Tracef("byte-level delivery conn=%d dir=%d seq=%d len=%d eof=%v", r.Conn.ID, r.Dir, r.Seq, len(r.Data), r.EOF)
 	if n.OnDeliver != nil {
 		n.OnDeliver(r)
 	}
